@@ -409,7 +409,7 @@ func (v *authorizer) loadPoliciesV2(pbPolicies *pb.AuthorizerPolicies) error {
 		v.world.AddRule(rule.convert(v.symbols))
 	}
 
-	v.checks = make([]Check, len(pbPolicies.Checks))
+	checks := make([]Check, len(pbPolicies.Checks))
 	for i, pbCheck := range pbPolicies.Checks {
 		dlCheck, err := protoCheckToTokenCheckV2(pbCheck)
 		if err != nil {
@@ -419,10 +419,10 @@ func (v *authorizer) loadPoliciesV2(pbPolicies *pb.AuthorizerPolicies) error {
 		if err != nil {
 			return fmt.Errorf("verifier: load policies v1: failed to convert check: %w", err)
 		}
-		v.checks[i] = *check
+		checks[i] = *check
 	}
 
-	v.policies = make([]Policy, len(pbPolicies.Policies))
+	policies := make([]Policy, len(pbPolicies.Policies))
 	for i, pbPolicy := range pbPolicies.Policies {
 		policy := Policy{}
 		switch *pbPolicy.Kind {
@@ -447,8 +447,14 @@ func (v *authorizer) loadPoliciesV2(pbPolicies *pb.AuthorizerPolicies) error {
 			}
 			policy.Queries[j] = *rule
 		}
-		v.policies[i] = policy
+		policies[i] = policy
 	}
+
+	// like the facts and rules above, the loaded checks and policies are added to what the
+	// authorizer already holds (checks and policies given before the call stay in force,
+	// the loaded policies come after them)
+	v.checks = append(v.checks, checks...)
+	v.policies = append(v.policies, policies...)
 
 	return nil
 }
